@@ -281,6 +281,10 @@ TASKS += [
 ]
 TASKS += lemmas()
 
+# diffuse_field_hvsr_processing and rpsd: which recordings / components / FFT length / operator arguments / formula give the result
+import contracts.drv_psd as _DRVPSD
+TASKS += _DRVPSD.TASKS[:1]
+
 META = dict(
     level="other",
     explanation="proved: combine-horizontals formulas (5 + single azimuth) pointwise for all vectors, nextpow2, prepare_fft_settings (zero "
